@@ -430,7 +430,29 @@ func value(r *rng.R, s *spec.Spec) any {
 
 // Build creates a real container from a spec through a randomly chosen construction route.
 // With r == nil the plain route (NewList(args...) / NewObject(pairs...)) is used.
+// DerivedList / DerivedObject, when set (by the monitors' package), build a derived structure: a user type that embeds a
+// List / Object and registers itself with Init (README "Derived Structures"), `level` embedding levels deep. Build then
+// makes about one container in twenty such a structure: it is a List / Object like any other.
+var DerivedList func(level int, vals ...any) at.List
+var DerivedObject func(level int, pairs ...any) at.Object
+
 func Build(r *rng.R, s *spec.Spec) any {
+	if r != nil && DerivedList != nil && DerivedObject != nil && r.Chance(1, 20) {
+		switch s.K {
+		case spec.List:
+			vals := make([]any, len(s.L))
+			for i, e := range s.L {
+				vals[i] = value(r, e)
+			}
+			return DerivedList(r.Intn(3), vals...)
+		case spec.Obj:
+			pairs := make([]any, 0, 2*len(s.Keys))
+			for i, k := range s.Keys {
+				pairs = append(pairs, k, value(r, s.Vals[i]))
+			}
+			return DerivedObject(r.Intn(3), pairs...)
+		}
+	}
 	if r != nil && r.Chance(1, 12) {
 		if v := buildViaParser(r, s); v != nil {
 			return v
